@@ -58,6 +58,26 @@ template<class V> struct tracked {
 	friend bool operator<(tracked const& a, tracked const& b) { return a.get() < b.get(); }
 };
 
+// the same lifetime tracking for an element type whose copy/move ASSIGNMENT is trivial (defaulted): construction and destruction are observed,
+// assignment is not - a container that picks "assign into raw storage" for trivially assignable types constructs nothing and still destroys everything
+template<class V> struct tracked_ta {
+	V v; unsigned cookie;
+	static constexpr unsigned ALIVE = 0xC0FFEE02u, DEAD = 0xDEADDEADu;
+	void born() { if(!registry().live.insert(this).second) soft("C08:construct-over-live-object", "an element was constructed at an address that already holds a live element"); cookie = ALIVE; }
+	tracked_ta() : v{} { born(); ++registry().dc; }
+	tracked_ta(V x) : v{std::move(x)} { born(); ++registry().vc; }  // NOLINT implicit on purpose
+	tracked_ta(tracked_ta const& o) : v{o.v} { born(); ++registry().cc; }
+	tracked_ta(tracked_ta&& o) noexcept : v{o.v} { born(); ++registry().mc; }
+	tracked_ta& operator=(tracked_ta const&) = default;
+	tracked_ta& operator=(tracked_ta&&) = default;
+	~tracked_ta() { if(!registry().live.erase(this)) soft("C08:destroy-of-dead-object", "an element that was never constructed (or is already destroyed) was destroyed"); ++registry().dtor; }
+	V const& get() const { return v; }
+	friend bool operator==(tracked_ta const& a, tracked_ta const& b) { return a.v == b.v; }
+	friend bool operator!=(tracked_ta const& a, tracked_ta const& b) { return !(a == b); }
+	friend bool operator<(tracked_ta const& a, tracked_ta const& b) { return a.v < b.v; }
+};
+static_assert(std::is_trivially_copy_assignable_v<tracked_ta<int>> && !std::is_trivially_default_constructible_v<tracked_ta<int>> && !std::is_trivially_destructible_v<tracked_ta<int>>);
+
 // ---- ledger of allocations
 struct Block { std::size_t n; std::size_t bytes; int id; };
 struct Ledger {
